@@ -88,6 +88,33 @@ CHECKS["C10"] = dict(
          "1..5 under all API-permitted call orders; the real code's returned buffer offsets, NULLs and empty() answers, "
          "payload integrity and untouched slack bytes are compared call by call for every depth 1..32.",
     note="Results (offsets, NULL, empty) are compared, not internal fields; ASan + exactly sized storage observe stray writes.")
+CHECKS["C12"] = dict(
+    engine="tlc+replay+tracecheck", category=MC, design_ref="DESIGN.md section 4/C12",
+    technique="TLA+ spec (Pack.tla: byte-sequence buffer, sticky cursor) model-checked with TLC; edge cover replayed on pack.c "
+              "and validated by TLC against TracePack.tla; 16-bit value sweep, 32-bit patterns and random sequences validated likewise",
+    text="TLC checks TouchedInside, Sticky, AllOrNothing and the little-endian round trip on all operation sequences up to "
+         "the bound over buffer sizes 0..5/6; after every real call the buffer image, the returned value, consumed/remaining "
+         "and the guard bytes around the exactly sized buffer are compared with the specification.",
+    note="Bounded sequences (4 operations) exhaustively, quick tier covers a seeded subset of the graph's edges; every 16-bit "
+         "value only in the thorough tier (stride 9 + boundary values in quick). Out-of-buffer access observed by ASan/guards.")
+CHECKS["C13"] = dict(
+    engine="tlc+tracecheck", category=MC, design_ref="DESIGN.md section 4/C13",
+    technique="TLA+ spec (WavHeader.tla: init/set_frames/encode/parse as byte-tuple arithmetic) checked with TLC on a bounded "
+              "domain; every case run on wavheader.c is one event validated by TLC against TraceWav.tla (structure field by "
+              "field, bytes, lengths, size relations)",
+    text="For 3 prior contents x 3 formats x 4 channel counts x 4 rates x 6 frame counts (up to the 32-bit limit) the real "
+         "structure, validate result, encoded bytes and the decoded structure are compared with the specification; "
+         "decode-first: every accepted byte string of the C14 corpus must re-encode to its normalised self.",
+    note="The specification is written to the property (all unset fields zero, RIFF size = bytes following in the file); "
+         "fact_chunk_size = 12 is accepted as the code's convention.")
+CHECKS["C14"] = dict(
+    engine="tlc+tracecheck", category=MC, design_ref="DESIGN.md section 4/C14",
+    technique="TLA+ spec (WavHeader.tla Parse + DecodeRetOK contract) checked with TLC; structured, hostile and random byte "
+              "strings decoded by wavheader.c in exactly sized heap buffers under ASan, each case validated by TLC against TraceWav.tla",
+    text="Every truncation point of six header shapes, every byte corrupted, size fields at 20 boundary values up to "
+         "0xffffffff x 6 cb_size values, random mutations: the return value must be a negative error, > sz when the header "
+         "is incomplete, or the exact length (>= 44); validate/get_format/tostring must terminate without a signal.",
+    note="Memory safety is observed (ASan, exact-size buffers), not proved; tostring runs in a forked child.")
 NOT_YET = "check not built yet (work in progress; planned per DESIGN.md section 4)"
 NA = {}
 
